@@ -182,3 +182,67 @@ func VerifC19Long(n int) {
 	rt.Assert(got == want, "C19.long-line-nothing-lost-duplicated-reordered")
 	rt.Cover("C19.long-line-checked")
 }
+
+var c19Segs = []string{"a", "\x1b[32m", "\n", "b\x1b[0m", "\x1b[1;31mc", "\r\n"}
+
+// VerifC19Ansi: streams with ANSI escape sequences. The stream is three segments, each a symbolic
+// choice among plain text, colour sequences and line ends (216 streams), written in two calls split
+// at every position (also inside a sequence), then the footer. With concrete bytes the engine hands
+// ansiRegexp to the real regexp package.
+func VerifC19Ansi() {
+	rt.Unwind(2000)
+	t := &task.Task{Name: "tk"}
+	sink := &c19Sink{}
+	d := newPrefixedOutputWriter(t, sink)
+	stream := ""
+	// [from, to) of every escape sequence in the stream
+	var seqs [][2]int
+	for k := 0; k < 3; k++ {
+		sg := rt.Concrete(rt.Choice("segment."+c19Digits[k], len(c19Segs)))
+		switch sg {
+		case 1:
+			seqs = append(seqs, [2]int{len(stream), len(stream) + 5})
+		case 3:
+			seqs = append(seqs, [2]int{len(stream) + 1, len(stream) + 5})
+		case 4:
+			seqs = append(seqs, [2]int{len(stream), len(stream) + 7})
+		}
+		stream += c19Segs[sg]
+	}
+	in := []byte(stream)
+	cut := rt.Concrete(rt.Choice("cut", len(in)+1))
+	for _, q := range seqs {
+		if q[0] < cut && cut < q[1] {
+			// classification of the known finding: the two Write calls split an escape sequence
+			rt.Tag("an-escape-sequence-is-split-between-two-write-calls")
+		}
+	}
+	for _, p := range [][]byte{in[:cut], in[cut:]} {
+		n, err := d.Write(p)
+		rt.Assert(rt.And(err == nil, n == len(p)), "C19.write-accepts-all-bytes")
+	}
+	rt.Assert(d.WriteFooter() == nil, "C19.footer-ok")
+	const prefix = "tk: "
+	var got []byte
+	for _, wr := range sink.writes {
+		ok := len(wr) >= len(prefix)+2
+		rt.Assert(ok, "C19.line-has-prefix-and-terminator")
+		if !ok {
+			return
+		}
+		rt.Assert(wr[:len(prefix)] == prefix, "C19.line-starts-with-task-name")
+		rt.Assert(wr[len(wr)-2:] == "\r\n", "C19.line-is-terminated")
+		got = append(got, wr[len(prefix):len(wr)-2]...)
+	}
+	strip := func(b []byte) string {
+		out := ""
+		for _, c := range ansiRegexp.ReplaceAllLiteral(b, []byte{}) {
+			if c != '\r' && c != '\n' {
+				out += string(rune(c))
+			}
+		}
+		return out
+	}
+	rt.Assert(strip(got) == strip(in), "C19.ansi-nothing-lost-duplicated-reordered")
+	rt.Cover("C19.ansi-checked")
+}
